@@ -38,8 +38,9 @@ EXTENDS Naturals, Sequences, FiniteSets, TLC
 CONSTANTS P,            \* prime field F_P
           Omega8,       \* a primitive 8-th root of unity mod P
           Omega16,      \* a primitive 16-th root of unity mod P
+          Omega32,      \* a primitive 32-nd root of unity mod P
           LogN,         \* n = 2^LogN
-          Threads,      \* rayon::current_num_threads()
+          ThreadSet,    \* values of rayon::current_num_threads() explored
           MinLen, MinChunks, MinThreads,
           Inputs,       \* "basis" | "dense"
           RangeLen      \* "ceil" (code) | "floor-seed" (self-test)
@@ -47,7 +48,7 @@ CONSTANTS P,            \* prime field F_P
 RECURSIVE Pow2(_)
 Pow2(k) == IF k = 0 THEN 1 ELSE 2 * Pow2(k - 1)
 N == Pow2(LogN)
-Omega == IF LogN = 3 THEN Omega8 ELSE Omega16
+Omega == IF LogN = 3 THEN Omega8 ELSE IF LogN = 4 THEN Omega16 ELSE Omega32
 
 Mul(a, b) == (a * b) % P
 Add(a, b) == (a + b) % P
@@ -59,7 +60,7 @@ CeilDiv(a, b) == (a + b - 1) \div b
 
 \* bitreverse(k, l)
 RECURSIVE BitRev(_, _)
-BitRev(k, l) == IF l = 0 THEN 0 ELSE 2 * BitRev(k \div 2, l - 1) * 0 + (k % 2) * Pow2(l - 1) + BitRev(k \div 2, l - 1)
+BitRev(k, l) == IF l = 0 THEN 0 ELSE (k % 2) * Pow2(l - 1) + BitRev(k \div 2, l - 1)
 
 \* bitreverse_permute: positions are 0-based in the code, 1-based here
 Permute(v) == [i \in 1..N |-> v[BitRev(i - 1, LogN) + 1]]
@@ -76,34 +77,34 @@ ChunkTask(c, m) == [left |-> c * 2 * m + 1, cnt |-> m, m |-> m, wm |-> Wm(m), se
 RECURSIVE SeedAt(_, _)
 SeedAt(step, k) == IF k = 0 THEN 1 ELSE Mul(SeedAt(step, k - 1), step)
 
-RangeTasks(c, m) ==
-  LET rl    == CeilDiv(m, Threads)
+RangeTasks(c, m, th) ==
+  LET rl    == CeilDiv(m, th)
       count == CeilDiv(m, rl)
-      srl   == IF RangeLen = "ceil" THEN rl ELSE m \div Threads
+      srl   == IF RangeLen = "ceil" THEN rl ELSE m \div th
       step  == PowM(Wm(m), srl)               \* w_m.pow_vartime(range_len)
   IN {[left |-> c * 2 * m + 1 + k * rl,
        cnt  |-> IF (k + 1) * rl <= m THEN rl ELSE m - k * rl,
        m    |-> m, wm |-> Wm(m), seed |-> SeedAt(step, k)] : k \in 0..(count - 1)}
 
 \* rounds of the stage with half-width m
-StageRounds(m) ==
+StageRounds(m, th) ==
   LET chunks == N \div (2 * m)
   IN IF N < MinLen
      THEN [c \in 1..chunks |-> {ChunkTask(c - 1, m)}]                \* serial_fft
      ELSE IF chunks >= MinChunks
      THEN << {ChunkTask(c, m) : c \in 0..(chunks - 1)} >>            \* parallel over chunks
-     ELSE IF Threads >= MinThreads
-     THEN [c \in 1..chunks |-> RangeTasks(c - 1, m)]                 \* parallel final stages
+     ELSE IF th >= MinThreads
+     THEN [c \in 1..chunks |-> RangeTasks(c - 1, m, th)]                 \* parallel final stages
      ELSE [c \in 1..chunks |-> {ChunkTask(c - 1, m)}]                \* serial chunks
 
-RECURSIVE RoundsFrom(_)
-RoundsFrom(s) == IF s = LogN THEN <<>> ELSE StageRounds(Pow2(s)) \o RoundsFrom(s + 1)
-Schedule == RoundsFrom(0)
+RECURSIVE RoundsFrom(_, _)
+RoundsFrom(s, th) == IF s = LogN THEN <<>> ELSE StageRounds(Pow2(s), th) \o RoundsFrom(s + 1, th)
+ScheduleOf(th) == RoundsFrom(0, th)
 
-Strategy(m) ==
+Strategy(m, th) ==
   IF N < MinLen THEN "serial-fft"
   ELSE IF N \div (2 * m) >= MinChunks THEN "par-chunks"
-  ELSE IF Threads >= MinThreads THEN "par-final" ELSE "serial-chunks"
+  ELSE IF th >= MinThreads THEN "par-final" ELSE "serial-chunks"
 
 --------------------------------------------------------------------------
 (* one butterfly (butterfly_range body) on positions l and l + m *)
@@ -138,32 +139,36 @@ InputSet ==
   IF Inputs = "basis" THEN {[i \in 1..N |-> IF i = j THEN 1 ELSE 0] : j \in 1..N}
   ELSE {[i \in 1..N |-> (i * i + 3 * i + 1) % P], [i \in 1..N |-> (7 * i + 2) % P]}
 
-VARIABLES input,   \* the vector handed to best_fft
+VARIABLES th,      \* rayon::current_num_threads() of this run
+          sched,   \* ScheduleOf(th)
+          input,   \* the vector handed to best_fft
           a,       \* the working vector
           round,   \* index of the current round (Len(Schedule)+1 when done)
           pend     \* tasks of the current round not yet finished, with progress:
                    \* [t |-> task, k |-> butterflies done, w |-> current twiddle]
 
-vars == <<input, a, round, pend>>
+vars == <<th, sched, input, a, round, pend>>
 
-Fresh(r) == IF r > Len(Schedule) THEN {}
-            ELSE {[t |-> t, k |-> 0, w |-> t.seed] : t \in Schedule[r]}
+Fresh(sc, r) == IF r > Len(sc) THEN {}
+                ELSE {[t |-> t, k |-> 0, w |-> t.seed] : t \in sc[r]}
 
-Init == /\ input \in InputSet
+Init == /\ th \in ThreadSet
+        /\ sched = ScheduleOf(th)
+        /\ input \in InputSet
         /\ a = Permute(input)
         /\ round = 1
-        /\ pend = Fresh(1)
+        /\ pend = Fresh(sched, 1)
 
 Step == \E p \in pend :
           /\ a' = Butterfly(a, p.t.left + p.k, p.t.m, p.w)
           /\ pend' = IF p.k + 1 = p.t.cnt THEN pend \ {p}
                      ELSE (pend \ {p}) \cup {[p EXCEPT !.k = @ + 1, !.w = Mul(@, p.t.wm)]}
-          /\ UNCHANGED <<input, round>>
+          /\ UNCHANGED <<th, sched, input, round>>
 
-Barrier == /\ pend = {} /\ round <= Len(Schedule)
+Barrier == /\ pend = {} /\ round <= Len(sched)
            /\ round' = round + 1
-           /\ pend' = Fresh(round + 1)
-           /\ UNCHANGED <<input, a>>
+           /\ pend' = Fresh(sched, round + 1)
+           /\ UNCHANGED <<th, sched, input, a>>
 
 Next == Step \/ Barrier
 Spec == Init /\ [][Next]_vars /\ WF_vars(Next)
@@ -173,18 +178,17 @@ Touch(t) == (t.left..(t.left + t.cnt - 1)) \cup ((t.left + t.m)..(t.left + t.m +
 
 \* tasks enabled together never touch a common index, in any round
 NoOverlap ==
-  \A r \in 1..Len(Schedule) : \A t1, t2 \in Schedule[r] :
-     t1 # t2 => Touch(t1) \cap Touch(t2) = {}
+  \A p1, p2 \in pend : p1 # p2 => Touch(p1.t) \cap Touch(p2.t) = {}
 
 \* every stage touches every index exactly once
 StageCovers ==
   \A s \in 0..(LogN - 1) :
-    LET rs == StageRounds(Pow2(s))
+    LET rs == StageRounds(Pow2(s), th)
         ts == UNION {rs[i] : i \in 1..Len(rs)}
     IN /\ UNION {Touch(t) : t \in ts} = 1..N
        /\ \A t1, t2 \in ts : t1 # t2 => Touch(t1) \cap Touch(t2) = {}
 
-Done == round = Len(Schedule) + 1
+Done == round = Len(sched) + 1
 
 ResultIsSerial == Done => a = SerialFFT(input)
 ResultIsDFT    == Done => a = DFT(input)
@@ -205,4 +209,6 @@ TilingFor(m, t) ==
      /\ \A k \in 0..(count - 1) : k * rl = lo(k)                \* exponent of seed k
 
 TilingLemma == \A m \in 1..64 : \A t \in 1..17 : TilingFor(m, t)
+\* evaluated once (it does not depend on the state)
+TilingOnce == round > 1 \/ pend = {} \/ TilingLemma
 =============================================================================
